@@ -135,6 +135,10 @@ class World:
             self.forms.append(["copy()", "v[:]", "v[list mask]", "v[Vector mask]"][k])
             self.vec[new[0]] = v
             return "Ok"
+        if act == "ConcatEmpty":
+            src = self.obj(a["x"])
+            self.vec[new[0]] = (src << []) if self.pick(2) == 0 else (src << Vector([]))
+            return "Ok"
         if act == "Drop":
             del self.vec[a["x"]]
             return "Ok"
@@ -354,7 +358,7 @@ def target_entity(w, a):
             ids |= set(w.cols[pos[0]]) | {pos[0]}
     elif act in ("SetAttr", "RenameColumn"):
         ids |= set(w.cols.get(a["x"], [])) | {a["x"]}
-    elif act in ("NewVec", "ShareVec", "Copy", "NewTable"):
+    elif act in ("NewVec", "ShareVec", "Copy", "ConcatEmpty", "NewTable"):
         ids |= set(a["lv"]) - w.prev_live
     return ids
 
